@@ -31,6 +31,9 @@ def check(cx):
             if not ok:
                 r1.violation('%s|channel-registry-%s' % (b, e.data['name']), 'the channel map is changed (%s) in %s' % (e.data['name'], b),
                              loc=cx.loc(e.node))
+    r1.instance('a JOIN decided as creation creates the channel with the joiner as founder (C07 R7.1)')
+    depends(cx, r1, 'C07', ('R7.1',), 'creation happens exactly for (!exists && quota) with new_on_user_join(own nick)',
+            only=r'create-formula|create-args|no-create')
     fnew = cx.fn('new_on_user_join')
     UN = P('user_nick')
     wn = cx.walk(fnew, args=[UN], key='c16')
